@@ -305,15 +305,24 @@ def r07_6(run):
         for gr in graphs:
             # the root handed to DuplicatingGraph is the tensor that owns the memory: it gets a placeholder too, so its gradient must be gone as well
             root = gr.value.args[0] if gr.value.args else None
-            if isinstance(root, ast.Name):
-                defs_ = [s for s in own_nodes(fp.node) if isinstance(s, ast.Assign) and len(s.targets) == 1 and norm(s.targets[0]) == root.id]
-                if len(defs_) == 1:
-                    root = defs_[0].value
             alts = [(root, {})]
+            if isinstance(root, ast.Name):
+                # every definition of the local is one alternative, judged under the test of the conditional it is an arm of (the normal form
+                # lowers `r = A if c else B` to `if c: r = A / else: r = B`)
+                defs_ = [s for s in own_nodes(fp.node) if isinstance(s, ast.Assign) and len(s.targets) == 1 and norm(s.targets[0]) == root.id]
+                if defs_:
+                    alts = []
+                    for d_ in defs_:
+                        par_ = getattr(d_, "_parent", None)
+                        extra_ = {}
+                        if isinstance(par_, ast.If) and any(x is d_ for x in par_.body):
+                            extra_ = {norm(par_.test): True}
+                        elif isinstance(par_, ast.If) and any(x is d_ for x in par_.orelse):
+                            extra_ = {norm(par_.test): False}
+                        alts.append((d_.value, extra_))
             if isinstance(root, ast.IfExp):
                 t = norm(root.test)
-                flip = t.replace(" is None", " is not None") if " is None" in t else t.replace(" is not None", " is None")
-                alts = [(root.body, {t: True, flip: False}), (root.orelse, {t: False, flip: True})]
+                alts = [(root.body, {t: True}), (root.orelse, {t: False})]
             for r_, extra in alts:
                 if r_ is None or norm(r_) == "self":
                     continue
@@ -403,7 +412,7 @@ def r07_6(run):
             own.discard(None)
             ok = nst is not None and bool(own) and all(
                 cfgv.all_paths_hit(succ, own | {nst}, exits=(head,)) is None for succ in cfgv.succ_by_kind(head, "loop")) and \
-                any(cfgv.dominates(o, nst) or cfgv.dominates(nst, o) for o in own)
+                (cfgv.set_dominates(own, nst) or cfgv.all_paths_hit(nst, own, exits=(head, EXIT)) is None)
             run.ob("R07.6", loc(fi, st_), fi.short, "detaching a stale view in a view op also settles the view's own gradient slot", ok,
                    f"a store to {v}._grad accompanies `{v}._base = None` on the view-op path" if ok else
                    f"`{v}._base = None` alone: Tensor.grad switches from the base-derived value to the view's private _grad, which still holds the "
